@@ -242,7 +242,7 @@ fn main() {
     let mut rep = Report::new("C03", &cli);
     rep.note("rule", json!("case = (tracker kind, metric, shards 1..4, max_idle 0..4, auto-waste period) x random history of 40..200 operations over 1..3 scenes: predict (possibly empty) / batches, skip_epochs, wasted, idle_tracks, clear_wasted, set_auto_waste. A lifecycle reference model advanced only from arguments and returned records is the oracle after EVERY operation: epochs per scene; no expired track continued; wasted() returns exactly the expired not-yet-handed-out tracks, each once over the whole history, with the model's length / last boxes; idle_tracks == unexpired tracks of the scene not updated in the current epoch; active / wasted shard statistics equal the physical contents of the live / wasted store and together account for every track not handed out or cleared (the ids clear_wasted removes are observed just before the call); every track is in exactly one place; sum of lengths == detections submitted. GC-timing differential: the same history without clear_wasted is re-run with auto-waste period 0, 1, 100 and with set_auto_waste calls sprinkled in; records (up to id bijection), wasted sets, idle sets and epochs must be identical. One stress case per process (8 voting threads, 48 scenes per batch, max_idle 0) checks hand-out and accounting while id allocation collides as often as possible. Non-trivial history: at least one expiry and one hand-out; distinct by history hash."));
     rep.note("assumptions", json!(["batch trackers: lifecycle calls only between fully retrieved batches; a batch cannot express an empty scene"]));
-    let n = cli.cases(320, 6000);
+    let n = cli.cases(640, 6000);
     for idx in cli.index_range(n) {
         let mut rng = Rng::for_case(cli.seed, cli.shard, idx);
         let kind = [Kind::Sort, Kind::Visual, Kind::BatchSort, Kind::BatchVisual][(idx % 4) as usize];
